@@ -67,6 +67,13 @@ PROPS = {
                 level_text='C04_bound / C04_history: every SetDesiredCapacity value and every fleet request, on top of the desired size at that moment, is <= min(max_nodes, cloud max), for all inputs and histories; '
                            'C04_clamp_exact: the clamp lands exactly on the bound and yields no request without headroom. Tie: hist correspondence on resize calls (arguments) + monitor.',
                 level_note=LEVEL_NOTE),
+    'C08': dict(level='proof', module='EscProofs.P.C08', streams=hist('C08', focus='ties'),
+                aspects=['taintadds', 'gets'], monitors=['C08'],
+                theorems=['Esc.P.C08_oldest', 'Esc.P.C08_history', 'Esc.P.taintLoop_oldest', 'Esc.orderBy_pairwise', 'Esc.orderBy_perm', 'Esc.taintLoop_spec'],
+                technique='Lean 4 theorem (the visiting order is a sorted permutation whatever the sort does among ties; the taint loop attempts a prefix of it) + differential correspondence with the observed sort order validated per case + monitor',
+                level_text='C08_oldest / C08_history: for every set of creation times (ties, identical, zero), list order, sort tie-breaking, taint count and failing GET/UPDATE, no untainted node that was not attempted is strictly older than a tainted one '
+                           '(unique node names assumed). The sort itself (sort.Sort on the repo\'s Less) is not modelled: the order it produced is passed as a hint and checked, on every case, to be a sorted permutation. Tie: hist on taint-adding updates and GET order + monitor.',
+                level_note=LEVEL_NOTE),
     'C09': dict(level='proof', module='EscProofs.P.C09', streams=hist('C09'),
                 aspects=['gets', 'updates', 'removals'], monitors=['C09'],
                 theorems=['Esc.P.C09_untouched', 'Esc.P.C09_history', 'Esc.P.C09_uncounted'],
